@@ -37,22 +37,17 @@ FORBIDDEN = [
 ]
 
 os.environ[GUARD] = "1"
+
+# Byte-code cache outside /repo and /verif: without it every process recompiles the
+# 2.6 MB literal in compiler/front_end/generated/cached_parser.py (tens of seconds).
+# Keyed by absolute source path and validated by mtime+size, so it is only a cache.
+_PYCACHE = os.environ.get("VERIF_PYCACHE", "/var/tmp/embverif-pycache")
+sys.dont_write_bytecode = False
+sys.pycache_prefix = _PYCACHE
+os.environ["PYTHONPYCACHEPREFIX"] = _PYCACHE
+os.environ.pop("PYTHONDONTWRITEBYTECODE", None)
 if REPO not in sys.path:
     sys.path.insert(0, REPO)
-
-# Byte-code cache outside /repo and /verif.  The environment exports
-# PYTHONDONTWRITEBYTECODE=1 and ./check runs `python -B`; /repo has no __pycache__, so the
-# 2.6 MB compiler/front_end/generated/cached_parser.py was recompiled from source in every
-# process (40-80 s instead of ~1.5 s).  The cache is keyed by absolute source path and
-# validated against the source's mtime+size by the interpreter, so a scratch worktree
-# ($VERIF_REPO) or an edited file never sees stale code.  It is only a cache: deleting it
-# costs one slow import.
-PYCACHE = os.environ.get("VERIF_PYCACHE", "/var/tmp/embverif-pycache")
-if PYCACHE:
-    sys.dont_write_bytecode = False
-    sys.pycache_prefix = PYCACHE
-    os.environ["PYTHONPYCACHEPREFIX"] = PYCACHE
-    os.environ.pop("PYTHONDONTWRITEBYTECODE", None)
 
 
 def seed():
